@@ -73,6 +73,13 @@ def helpers(ctx, N, d):
 
 def replay_case(ctx, case):
     ctx.pairs = 0
+    if case.get('second_request'):
+        N, d = case['N'], case['d']
+        J = ei.generate_multi_indices(N, d)
+        J[...] = (J > 0)
+        G, rays = ei.generate_Gamma_and_rays(N, d)
+        G[...] = 7.0
+        rays[...] = 0
     return check_nd(ctx, case['N'], case['d']) or helpers(ctx, case['N'], case['d'])
 
 
@@ -90,4 +97,17 @@ def run(ctx):
         f = check_nd(ctx, N, d) or helpers(ctx, N, d)
         if f:
             ctx.report(case, 'failure', f)
+            continue
+        # the results are the caller's to keep: overwriting the returned arrays, and asking for other (N', d') in between,
+        # must not change what the next request for (N, d) returns
+        J = ei.generate_multi_indices(N, d)
+        J[...] = (J > 0)
+        G, rays = ei.generate_Gamma_and_rays(N, d)
+        G[...] = 7.0
+        rays[...] = 0
+        ei.generate_Gamma_and_rays(max(1, N - 1), d + 1)
+        ei.generate_multi_indices(N + 1, max(1, d - 1))
+        f = check_nd(ctx, N, d)
+        if f:
+            ctx.report(dict(case, second_request=True), 'failure', 'after-mutation-' + f)
     ctx.dist['gamma_pairs_compared'] = ctx.pairs
